@@ -32,7 +32,11 @@ def build_case(u):
     reqs = []
     for _ in range(nreq):
         op = u.choice(["get", "get_many", "getnext1", "getbulk1"])
-        reqs.append({"op": op, "foreign": u.below(4) == 0})
+        # otherwise matching replies that must be rejected *and must not move the session's view of boots/time*:
+        # from a foreign engine, below the session's security level (auth flag clear / sent in clear), or with a bad MAC.
+        # With only=True nothing acceptable follows, the call times out, and the next request shows what was adopted.
+        inject = (None, None, None, None, "foreign", "unauth", "clear", "badmac")[u.below(8)]
+        reqs.append({"op": op, "foreign": inject == "foreign", "inject": inject, "only": inject is not None and u.below(4) == 0})
     times = [TIMES[u.below(len(TIMES))] if u.below(3) else (u.bits(4) >> 1, u.bits(4) >> 1) for _ in range(nreq + 3)]
     ctx = (None, None, b"", b"\x80\x00\x00\x01ctx")[u.below(4)]  # contextEngineID of the Reports: None = the agent's engine id
     return {"cfg": cfg, "engine": engine, "discovered": discovered, "mode": mode, "driver": driver, "reqs": reqs, "times": times, "report_ctx": ctx}
@@ -56,33 +60,49 @@ def execute(G, c):
     post_cfg.engine_id = E
     pre = wire.SessionModel(default_cfg, b"")
     post = wire.SessionModel(post_cfg, E)
-    # expected message plan
-    plan = []
-    if c["discovered"]:
-        plan.append(("probe0", ("refresh",)))
-        plan.append(("probe", ("refresh",)))
-    elif c["mode"] != "none" and cfg.auth:
-        plan.append(("probe", ("refresh",)))
-    for r in c["reqs"]:
-        plan.append(("req", CALLS[r["op"]], r))
-    st = {"i": 0, "t": 0}
+    # Requests are matched in order; probes (GET with no varbinds, reportable) are recognised by their content, so the
+    # check does not depend on how many refresh exchanges the client chooses to make - only on what each message carries.
+    req_plan = [(CALLS[r["op"]], r) for r in c["reqs"]]
+    st = {"i": 0, "t": 0, "req": 0, "probes": 0, "known": not c["discovered"]}
     problems = []
     seen = {"widths": set()}
+    kinds = []
+    expect_timeout = set()
 
     def handler(d):
         i = st["i"]
         st["i"] += 1
-        if i >= len(plan):
-            problems.append(core.Failure("unexpected-message", "message #%d beyond the expected %d: %s" % (i, len(plan), d.hex())))
+        try:
+            raw = rb.parse_message(d, strict=False, data=False)
+        except rb.BerError as e:
+            problems.append(core.Failure("request-not-well-formed", "message #%d: %s" % (i, e)))
             return []
-        kind, call = plan[i][0], plan[i][1]
+        # a probe: the client does not know the engine id yet, or sends the reportable empty GET
+        lenient = None
+        try:
+            lenient = ag.decode_request(post_cfg if st["known"] else default_cfg, d, strict=False)
+        except rb.BerError:
+            pass
+        is_probe = lenient is not None and lenient.get("pdu_tag") == rb.PDU_GET and not lenient.get("varbinds")
+        if not st["known"] and raw["engine_id"] == b"":
+            is_probe = True
+        if is_probe:
+            kind = "probe" if st["known"] else "probe0"
+            call = ("refresh",)
+        else:
+            kind = "req"
+            if st["req"] >= len(req_plan):
+                problems.append(core.Failure("unexpected-message", "message #%d is a request beyond the %d calls made: %s" % (i, len(req_plan), d.hex())))
+                return []
+            call = req_plan[st["req"]][0]
+        kinds.append(kind)
         model = pre if kind == "probe0" else post
         try:
             m = wire.check_structure(model, call, d)
             wire.check_mac(model, m, d)
             wire.check_priv(model, m)
         except core.Failure as f:
-            f.message = "message #%d (%s) of plan %r: %s" % (i, kind, [p[0] for p in plan], f.message)
+            f.message = "message #%d (%s, history %r): %s" % (i, kind, kinds, f.message)
             problems.append(f)
             return []
         b, t = c["times"][st["t"] % len(c["times"])]
@@ -90,6 +110,7 @@ def execute(G, c):
         seen["widths"].add((len(rb.int_content(b)), len(rb.int_content(t))))
         outs = []
         if kind in ("probe0", "probe"):
+            st["probes"] += 1
             rcfg = default_cfg if kind == "probe0" else post_cfg
             rep_ = ag.build_report(rcfg, m, E, b, t)
             if c["report_ctx"] is not None:
@@ -101,20 +122,39 @@ def execute(G, c):
             outs.append(rep_)
             pre.accept(E, b, t)
             post.accept(E, b, t)
+            st["known"] = True
             return outs
-        r = plan[i][2]
+        r = req_plan[st["req"]][1]
+        idx = st["req"]
+        st["req"] += 1
         name = (m["varbinds"][0][0] if m["varbinds"] else (1, 3)) + (1,)
-        vbs = [rb.varbind(rb.enc_oid(name), rb.enc_int(1000 + i))]
-        if r["foreign"]:
-            # otherwise matching reply from another engine, with other boots/time: must be dropped, not adopted
+        vbs = [rb.varbind(rb.enc_oid(name), rb.enc_int(1000 + idx))]
+        inject = r.get("inject")
+        if inject in ("unauth", "clear", "badmac") and not post_cfg.auth:
+            inject = None  # nothing to reject on a noAuth session
+        if inject == "clear" and not post_cfg.priv:
+            inject = "unauth"
+        bad = [rb.varbind(rb.enc_oid(name), rb.enc_int(666))]
+        fb, ft = b ^ 0x55, t ^ 0x33
+        if inject == "foreign":
             fcfg = gen.cfg_from_json(gen.cfg_to_json(post_cfg))
-            outs.append(ag.build_reply(fcfg, m, [rb.varbind(rb.enc_oid(name), rb.enc_int(666))], engine_id=FOREIGN, boots=b ^ 0x55, time=t ^ 0x33))
+            outs.append(ag.build_reply(fcfg, m, bad, engine_id=FOREIGN, boots=fb, time=ft))
+        elif inject == "unauth":
+            outs.append(ag.build_reply(post_cfg, m, bad, boots=fb, time=ft, mac="absent", encrypt=False, flags=0))
+        elif inject == "clear":
+            outs.append(ag.build_reply(post_cfg, m, bad, boots=fb, time=ft, encrypt=False, flags=1))
+        elif inject == "badmac":
+            outs.append(ag.build_reply(post_cfg, m, bad, boots=fb, time=ft, mac="zero"))
+        if inject is not None and r.get("only"):
+            expect_timeout.add(idx)
+            return outs  # nothing acceptable follows: the call must time out and the view must stay as it was
         outs.append(ag.build_reply(post_cfg, m, vbs, boots=b, time=t))
         post.accept(E, b, t)
         return outs
 
+    plan = [("req", cl_, r_) for cl_, r_ in req_plan]
     calls = [p[1] for p in plan if p[0] == "req"]
-    kw = {"timeout": 1.5, "session_kw": {}}
+    kw = {"timeout": 0.15, "session_kw": {}}
     if c["mode"] == "with":
         kw["use_with"] = True
         run_calls = calls
@@ -128,22 +168,24 @@ def execute(G, c):
     if problems:
         raise problems[0]
     info = "%s discovered=%s mode=%s driver=%s" % (post_cfg.describe(), c["discovered"], c["mode"], c["driver"])
-    if st["i"] != len(plan):
-        raise core.Failure("message-count", "%s: %d messages seen, plan has %d (%r); outcomes %r" % (info, st["i"], len(plan), [p[0] for p in plan], outs))
+    if st["req"] != len(req_plan):
+        raise core.Failure("message-count", "%s: %d of %d requests seen (message kinds %r); outcomes %r" % (info, st["req"], len(req_plan), kinds, outs))
+    if c["discovered"] and st["probes"] < 1:
+        raise core.Failure("no-discovery-probe", "%s: engine id unknown yet no probe was sent (%r)" % (info, kinds))
     res = outs[1:] if c["mode"] == "refresh" else outs
-    k = 0
-    for i, p in enumerate(plan):
-        if p[0] != "req":
+    for k, o in enumerate(res):
+        want = 1000 + k
+        if k in expect_timeout:
+            if not (o.kind == "exc" and isinstance(o.exc, TimeoutError)):
+                sig = "rejected-reply-delivered" if (o.kind == "ok" and "666" in repr(o.value)) else "request-failed"
+                raise core.Failure(sig, "%s: request #%d was answered only by a reply that must be rejected (%s); outcome %r" % (info, k, c["reqs"][k]["inject"], o))
             continue
-        o = res[k]
-        k += 1
-        want = 1000 + i
         ok = o.kind == "ok" and (o.value == want or (isinstance(o.value, dict) and list(o.value.values()) == [want])
                                  or (isinstance(o.value, tuple) and o.value[1] == want))
         if not ok:
             sig = "foreign-engine-reply-delivered" if (o.kind == "ok" and "666" in repr(o.value)) else "request-failed"
-            raise core.Failure(sig, "%s: request #%d (%s) gave %r, expected value %d" % (info, i, p[1][0], o, want))
-    return len(plan), seen["widths"]
+            raise core.Failure(sig, "%s: request #%d (%s) gave %r, expected value %d" % (info, k, req_plan[k][0][0], o, want))
+    return st["i"], seen["widths"]
 
 
 def run_with_user(G, c, hl_cfg, E, run_calls, handler, kw):
@@ -199,10 +241,10 @@ def run(rep, tier):
                  classes=["discovered" if c["discovered"] else "engine_given", "mode:" + c["mode"], "driver:" + c["driver"],
                           "auth:%s" % c["cfg"].auth, "priv:%s" % c["cfg"].priv, "kt:" + c["cfg"].auth_kt,
                           "ctx:" + ("own" if c["report_ctx"] is None else ("empty" if c["report_ctx"] == b"" else "foreign"))]
-                 + (["foreign_reply_injected"] if any(r["foreign"] for r in c["reqs"]) else []))
+                 + ["inject:%s%s" % (r["inject"], "/only" if r["only"] else "") for r in c["reqs"] if r.get("inject")])
         rep.count("messages_checked", nmsg)
 
-    n = 800 if tier == "quick" else 20000
+    n = 600 if tier == "quick" else 12000
     core.run_hypothesis(rep, gen.case_strategy(build_case, 1024), body, n, describe=describe)
 
 
